@@ -352,6 +352,7 @@ func genDocPair(rng *hx.Rand, card bool, call string) (string, *WDoc, *WDoc) {
 		path    string
 		status  int64 // 0: propstats
 		answers []answerT
+		dups    []answerT // second answers for names already answered, written in a last propstat
 	}
 	var content []res
 	token := ""
@@ -395,6 +396,29 @@ func genDocPair(rng *hx.Rand, card bool, call string) (string, *WDoc, *WDoc) {
 			}
 		}
 	}
+	// a server may answer a name twice (RFC 4918 does not forbid it); a reader takes the first
+	// answer.  The second one goes into a propstat of its own after all others, in both layouts,
+	// so that the sequence of answers per name is the same.
+	for i := range content {
+		c := &content[i]
+		if len(c.answers) > 0 && rng.Chance(1, 8) {
+			a := c.answers[rng.Intn(len(c.answers))]
+			d := answerT{Prop: clone(a.Prop), Code: pick64(rng, []int64{200, 200, 500, 404})}
+			if d.Code == 200 && len(d.Prop.Kids) > 0 && d.Prop.Kids[0].Kind == 't' {
+				switch d.Prop.Local {
+				case "getetag":
+					d.Prop.Kids = []*Tree{T(`"second"`)}
+				case "getlastmodified":
+					d.Prop.Kids = []*Tree{T("Mon, 02 Jan 2006 15:04:05 GMT")}
+				case "displayname", "calendar-description", "addressbook-description":
+					d.Prop.Kids = []*Tree{T("second")}
+				case "max-resource-size", "getcontentlength":
+					d.Prop.Kids = []*Tree{T("77")}
+				}
+			}
+			c.dups = append(c.dups, d)
+		}
+	}
 	mk := func(canonical bool) *WDoc {
 		d := &WDoc{Token: token}
 		for _, c := range content {
@@ -406,6 +430,9 @@ func genDocPair(rng *hx.Rand, card bool, call string) (string, *WDoc, *WDoc) {
 				}
 			} else {
 				r.Groups = layout(rng, c.answers, canonical)
+				for _, dup := range c.dups {
+					r.Groups = append(r.Groups, &WGroup{Code: dup.Code, Reason: http.StatusText(int(dup.Code)), Props: []*Tree{clone(dup.Prop)}})
+				}
 			}
 			if !canonical {
 				r.Junk = genJunk(rng, len(r.Hrefs)+len(r.Groups)+1, false)
